@@ -23,7 +23,7 @@ theorem leaveStruct_inv {orph : List Nat} {h : Hub} (hi : InvX orph h) {s : Nat}
     (hx : h.sess s = some x) (hr : x.room = some r) (hrm : h.rooms x.backend r = some rm) :
     InvX orph (leaveStruct h s x r rm) := by
   have hmem : s ∈ rm.members := by
-    obtain ⟨rm', h1, h2⟩ := hi.room_mem s x r hx hr
+    obtain ⟨rm', h1, h2⟩ := hi.room_mem' s x r hx hr
     rw [hrm] at h1; cases h1; exact h2
   unfold leaveStruct
   obtain ⟨f1, f2, f3, f4, f5, f6, f7, f8, f9, f10, f11, f12, f13, f14, f15, f16, f17, f18, f19, f20, f21, f22, f23⟩ := hi
@@ -64,7 +64,7 @@ theorem leaveRoom_inv {orph : List Nat} (a : Acc) (s : Nat) (hi : InvX orph a.h)
     cases hr : x.room with
     | none => unfold leaveRoom; simp only [hx, hr]; exact hi
     | some r =>
-      obtain ⟨rm, hrm, hmem⟩ := hi.room_mem s x r hx hr
+      obtain ⟨rm, hrm, hmem⟩ := hi.room_mem' s x r hx hr
       exact (leaveStruct_inv hi hx hr hrm).congr (leaveRoom_core a s hx hr hrm hmem)
 
 end SigModel.Hub
